@@ -166,7 +166,9 @@ def handle(p):
             P.reset()
             res = run_exposure(running, make_pipeline({group: models}), make_readout(times=[1.0]))
             seen = [t for t in P.TRACE if t["tag"] == "after"]
+            before = [t for t in P.TRACE if t["tag"] == "before"]
             out["seen"] = seen[-1]["canon"] if seen else None
+            out["before"] = before[-1]["canon"] if before else None
             out["final"] = P.canon_detector(running)
             bucket = {}
             for b in ("photon", "pixel", "signal", "image", "charge"):
